@@ -183,7 +183,32 @@ def check(case):
 
         cands, rejected = _load_candidates(case, uni, raw)
         if not cands:
-            return Verdict(excluded="reference loader rejects the decoded text")
+            # the text decoded under the first decoding encoding is itself rejected by the parser: opening must fail the
+            # same way - not report a later encoding under which the bytes happen to parse - and change nothing
+            from msdparser import MSDParserError
+
+            calls = [("open_with_detected_encoding", lambda: simfile.open_with_detected_encoding(p_in, **kw))]
+            if use_open:
+                calls.append(("open", lambda: simfile.open(p_in, **openkw)))
+
+            def run_mutate2():
+                with simfile.mutate(p_in, output_filename=p_out, backup_filename=(p_bak if bak not in (inp, out) else None), **kw):
+                    pass
+
+            calls.append(("mutate", run_mutate2))
+            evals = 0
+            for name, fn in calls:
+                try:
+                    r = fn()
+                except UnicodeDecodeError as e:
+                    raise Violation(f"{name} raised UnicodeDecodeError although {enc} decodes the whole file: {e}; {desc}")
+                except (MSDParserError, ValueError):
+                    evals += 1
+                    continue
+                got_enc = r[1] if isinstance(r, tuple) else "?"
+                raise Violation(f"{name} succeeded (encoding {got_enc!r}) although the file decodes under {enc}, the first of {tried} to decode it, and that text is rejected by the parser; {desc}")
+            need(d.snapshot() == before, f"files {ff.diff_names(before, d.snapshot())} changed although loading the input failed; {desc}")
+            return Verdict(nontrivial=True, labels=labels + ["decoded-text-rejected-by-parser"], evals=evals)
         if uni != raw:
             labels.append("body-has-CR")
 
@@ -325,7 +350,7 @@ def s_encs(draw):
 def s_case(draw):
     suffix = draw(st.sampled_from([".sm", ".ssc"]))
     sel = draw(st.integers(0, 13))
-    kind = "raw" if sel == 0 else "dangling" if sel == 1 else "straddle" if sel == 2 else "doc"
+    kind = "raw" if sel == 0 else "dangling" if sel == 1 else "straddle" if sel == 2 else "trailbyte" if sel == 3 else "doc"
     if kind == "raw":
         data = b"".join(draw(st.lists(st.sampled_from(RAW_BYTES), min_size=1, max_size=14))) + draw(st.sampled_from([b"\n", b"\n", b""]))
         if data.endswith(b"\\"):
@@ -340,6 +365,21 @@ def s_case(draw):
         text = draw(ff.s_document(enc_used, suffix, keyonly=False, stray=False, max_props=2, max_charts=0))
         tail = draw(st.sampled_from(DANGLING_TAILS))
         data = text.encode(enc_used) + (b"" if text.endswith(("\n", "\r")) or not text else b"\n") + b"#LASTKEY:x" + tail
+        kind = "raw"
+    elif kind == "trailbyte":
+        # a double-byte character whose trail byte is 0x5C (a backslash in the single-byte code pages) right in front of a
+        # ':' or ';': under cp1252 the separator is escaped, under cp932 it is not, so the same bytes have a different
+        # number of components under the two encodings (fewer than six NOTES components: the loader raises ValueError)
+        enc_used = None
+        strict = True
+        lead = draw(st.sampled_from([b"\x83\x5c", b"\x95\x5c", b"\x8f\x5c", b"\x83\x5c"]))
+        where = draw(st.integers(0, 3))
+        f = [b"dance-single", b"desc", b"Hard", b"1", b"0,0"]
+        if where < 3:
+            f[draw(st.integers(0, 4))] += lead
+            data = b"#TITLE:x;\n#NOTES:" + b":".join(b"\n     " + x for x in f) + b":\n0000\n0000\n;\n"
+        else:
+            data = b"#TITLE:t" + lead + b";\n#ARTIST:a;\n"
         kind = "raw"
     elif kind == "straddle":
         # a UTF-8 file longer than a typical I/O buffer in which a multi-byte character straddles (or starts just before)
